@@ -69,10 +69,10 @@ def prepare_tree(tree: pathlib.Path, harness_files):
     return touched
 
 
-def list_harness_files(prop, tier):
+def list_harness_files(prop, tier, extra=()):
     out = []
     d = VERIF / 'harness' / prop
-    for f in sorted(d.glob('*.rs')):
+    for f in sorted(d.glob('*.rs')) + [VERIF / 'harness' / e for e in extra]:
         meta, _ = patch.harness_meta(f)
         t = meta.get('tier', 'quick')
         if t == 'quick' or tier == 'thorough':
